@@ -49,7 +49,7 @@ class Explorer:
     def run_history(self, hist):
         """returns list of (call_json, canonical_digest) per step, plus raw result"""
         self.n += 1
-        w = os.path.join(self.root, 'h%d' % self.n)
+        w = os.path.join(self.root, 'h%06d' % self.n)   # fixed-length names: the work dir may appear in records (cwd)
         lines = ['syms ' + self.symfile] + list(self.prelude) + ['digest init']
         if self.warmup:
             lines += list(self.warmup) + ['digest warm']
@@ -72,7 +72,7 @@ class Explorer:
             else:
                 steps.append((calls[i] if i < len(calls) else None, None))
         d_start = canon(base[0], ds[0]) if base else None
-        return {'steps': steps, 'start': d_start, 'raw': r, 'ok': r['done'] and not r['san']}
+        return {'steps': steps, 'start': d_start, 'raw': r, 'ok': r['done'] and not r['san'], 'workdir': w}
 
     def bfs(self, max_depth, on_step, deadline=None, max_states=400):
         """on_step(hist, letter, call_json, result) is the oracle hook, called for every executed (state, letter).
